@@ -210,6 +210,49 @@ theorem roundtrip_bytes (q : BgzfBytes.Quirks) (c : Codec) (h : Header) (hr : Re
   rw [this]
 
 open Member in
+/-- The stream the writer produces — under ANY header setting gzip.Writer and gzip.Reader accept (Name, Comment,
+user Extra, ModTime, OS), for any script with a Close that returned nil — is a stream of well-framed members in the
+sense of C10's lemma library (`Hts.Lemmas.BgzfBytes`: each header is `HeaderOk`, i.e. read completely by
+`readHeader`, announcing the member size, every proper prefix a short read), whose payloads concatenate to the
+accepted bytes.  Hence C10's theorems about such streams (truncation at every cut: `Hts.Props.C10.prefix_reads_prefix`,
+…) apply to the writer's output for every header, not only the default 18-byte one. -/
+theorem produced_stream_wellframed (c : Codec) (h : Header) (hr : ReaderOK h) (wops : List (Op Byte))
+    (hclose : hasClose wops = true) (hok : (closeOutput c.toCodecFns h (after wops).emitted).2 = none) :
+    ∃ ms : List Hts.Lemmas.BgzfBytes.Member,
+      (closeOutput c.toCodecFns h (after wops).emitted).1 = Hts.Lemmas.BgzfBytes.stream ms ∧
+      (∀ m ∈ ms, m.WellFramed (toBytesCodec c.toCodecFns)) ∧
+      Hts.Lemmas.BgzfBytes.data ms = accepted wops := by
+  have hcl : (after wops).closed = true := by rw [writer_closed_iff, hclose]
+  obtain ⟨_, _, hcb⟩ := writer_blocks wops
+  obtain ⟨hact, pre, last, hem, hpre, hlast⟩ := hcb hcl
+  have hrn : (render c.toCodecFns h (after wops).emitted).2 = none := by
+    simpa only [closeOutput_eq] using hok
+  have hw := (render_snd_none _ _ _).mp hrn
+  have hout : (closeOutput c.toCodecFns h (after wops).emitted).1 =
+      (((after wops).emitted.map (mb c.toCodecFns h)).flatten ++ magicBlock) := by
+    simp only [closeOutput_eq, render_fst, hrn, hw, if_true]
+  have hfits : ∀ p ∈ (after wops).emitted, Fits c.toCodecFns h p ∧ p.length ≤ BgzfWriter.MaxBlockSize := by
+    intro p hp
+    refine ⟨by have := written_fits c.toCodecFns h (after wops).emitted p; rw [hw] at this; exact this hp, ?_⟩
+    rw [hem] at hp
+    rcases List.mem_append.mp hp with h' | h'
+    · have := (hpre p h').2; simp [BlockSize, MaxBlockSize] at this ⊢; omega
+    · simp at h'; subst h'; simp [BlockSize, MaxBlockSize] at hlast ⊢; omega
+  refine ⟨(after wops).emitted.map (blockM c.toCodecFns h) ++ [markerM], ?_, ?_, ?_⟩
+  · rw [hout]
+    simp [Hts.Lemmas.BgzfBytes.stream, blockM_bytes, markerM_bytes, Function.comp_def]
+  · intro m hm
+    rcases List.mem_append.mp hm with h' | h'
+    · obtain ⟨p, hp, rfl⟩ := List.mem_map.mp h'
+      have := hfits p hp
+      exact blockM_wf c h p this.1.1 hr this.1.2 this.2
+    · simp at h'; subst h'; exact markerM_wf c
+  · have := writer_flatten wops
+    rw [hact] at this
+    simp only [List.append_nil] at this
+    simp [Hts.Lemmas.BgzfBytes.data, blockM, markerM, Function.comp_def, this]
+
+open Member in
 /-- default header, codec within the bound: every script with a Close, read by C10's byte-level model -/
 theorem roundtrip_bytes_default (q : BgzfBytes.Quirks) (c : Codec) (hb : Bounded c.toCodecFns) (wops : List (Op Byte))
     (hclose : hasClose wops = true) :
@@ -340,5 +383,26 @@ example := roundtrip_default Member.Toy.codec Member.Toy.bounded
 /-- an instance of the byte-level round trip -/
 example := roundtrip_bytes_default .repaired Member.Toy.codec Member.Toy.bounded
   [Op.write [1, 2, 3], Op.flush, Op.write [4], Op.close] rfl
+
+/-- an instance of `produced_stream_wellframed` with a header that has a Name, a Comment and a user Extra sub-field -/
+example : ∃ ms : List Hts.Lemmas.BgzfBytes.Member,
+    (Member.closeOutput Member.Toy.codec.toCodecFns
+        { name := [0x66, 0xe9], comment := [0x63], extra := [88, 89, 1, 0, 7], mtime := 0x00024342, os := 3 }
+        (after [Op.write [1, 2, 3], Op.flush, Op.write [4], Op.close]).emitted).1 = Hts.Lemmas.BgzfBytes.stream ms ∧
+    (∀ m ∈ ms, m.WellFramed (Member.toBytesCodec Member.Toy.codec.toCodecFns)) ∧
+    Hts.Lemmas.BgzfBytes.data ms = accepted [Op.write [1, 2, 3], Op.flush, Op.write [4], Op.close] := by
+  have hk : Member.HdrOK { name := [0x66, 0xe9], comment := [0x63], extra := [88, 89, 1, 0, 7], mtime := 0x00024342, os := 3 } := by
+    decide
+  have hfit : ∀ p : List Member.Byte, p.length ≤ BlockSize → Member.Fits Member.Toy.codec.toCodecFns
+      { name := [0x66, 0xe9], comment := [0x63], extra := [88, 89, 1, 0, 7], mtime := 0x00024342, os := 3 } p := by
+    intro p hp
+    refine ⟨hk, ?_⟩
+    simp [Member.memberLen, Member.zbytes, Member.Toy.codec, Member.Toy.deflate, MaxBlockSize, BlockSize] at *
+    omega
+  have hall := Member.written_all _ _ (after [Op.write [1, 2, 3], Op.flush, Op.write [4], Op.close]).emitted
+    (fun p hp => hfit p (after_blocks_le _ rfl p hp))
+  have hrn := (Member.render_snd_none _ _ _).mpr hall
+  exact produced_stream_wellframed Member.Toy.codec _ ⟨by decide, by decide⟩ _ rfl
+    (by simpa only [Member.closeOutput_eq] using hrn)
 
 end Hts.Props.C01
